@@ -28,7 +28,9 @@ except Exception:  # pragma: no cover - numpy is optional
 
 from simkit import c08_model as M  # noqa: E402
 from simkit.rng import seed_globals  # noqa: E402
-from simkit.world import InvalidScenario, Monitor, Violation, repo_exception_sig, result, run_sim  # noqa: E402
+from simkit.world import (  # noqa: E402
+    BudgetExceeded, InvalidScenario, Monitor, Violation, repo_exception_sig, result, run_sim,
+)
 
 PROPERTY = "C08"
 RUNS = {"quick": 7_000, "thorough": 600_000}
@@ -40,7 +42,8 @@ RULE = (
     "Queue+QueueDriver+custom worker, ShiftedServer, RenegingQueuedResource, PooledCycleResource, BatchProcessor, "
     "ConveyorBelt, GateController; queue policies FIFO/LIFO/Priority/Deadline/Fair/WeightedFair/AdaptiveLIFO/CoDel/"
     "RED/Balking with capacities) fed with 2-60 tagged requests through ConditionalRouter relay chains of 0-3 hops, "
-    "arrival instants drawn from a few ticks (bursts, completion/shift/gate instants), scripted set_limit and "
+    "arrival instants drawn from a few ticks (bursts, completion/shift/gate instants), scripted set_limit (inside the "
+    "run, before run() and while paused at a generated delivery index), capacity_changed() from outside the loop and "
     "DeadlineQueue.purge_expired() housekeeping — or a direct push/pop/peek/purge_expired/query script on one policy inside the engine; main classes are multi (limits > 1) and aligned (coinciding instants), "
     "serial (every limit 1) and offgrid (no coinciding unrelated events) are minor classes; non-trivial = at least 3 requests offered and contention occurred (something waited, was "
     "rejected, or was held) / for policy scripts: >=3 pushes, >=2 pops, depth >=2 reached; distinct = distinct "
@@ -95,9 +98,10 @@ EXPECTED_PROBES = [
     "probe.poll_found_nothing", "probe.policy_push_rejected", "probe.two_stage",
     "probe.configured_policy_on_shifted_or_reneging", "probe.shift_first_arrival_in_later_shift",
     "probe.batch_of_one_with_timeout_processed_at_once",
-    "probe.policy_purge_removed", "probe.policy_purge_left_3plus", "probe.policy_query", "probe.pipeline_purge_removed",
+    "probe.outside_change_before_run", "probe.outside_change_while_paused", "probe.outside_limit_raised_under_backlog",
+    "probe.outside_grace_ended_by_trigger", "probe.policy_purge_removed", "probe.policy_purge_left_3plus", "probe.policy_query", "probe.pipeline_purge_removed",
 ]
-SHRINK_SKIP = ("kind", "type", "model", "mode", "flow", "flow_weights", "max_p", "weight", "prob")
+SHRINK_SKIP = ("kind", "type", "model", "mode", "flow", "flow_weights", "max_p", "weight", "prob", "op")
 SHRINK_BUDGET_S = {"quick": 20.0, "thorough": 60.0}
 
 TICK = M.TICK_NS
@@ -257,13 +261,24 @@ def gen_pipeline(rng, tier, seed):
             for _ in range(rng.randint(0, 5)):
                 ctl.append({"tick": rng.choice(cand) + rng.choice([0, 0, 1, 2]), "stage": si,
                             "limit": rng.randint(0, st["conc"]["max"] + 1)})
+    outside = []
+    if rng.random() < 0.3:
+        for _ in range(rng.randint(1, 3)):
+            si = rng.randrange(len(stages))
+            st = stages[si]
+            at = rng.choice([0, 0, rng.randint(1, 6 * n + 4), rng.randint(1, 12 * n + 4)])
+            if st["kind"] == "server" and st["conc"]["model"] == "dynamic" and rng.random() < 0.8:
+                outside.append({"at": at, "stage": si, "op": "limit", "limit": rng.randint(0, st["conc"]["max"] + 1)})
+            elif st["kind"] in ("server", "shifted", "reneging"):
+                outside.append({"at": at, "stage": si, "op": "changed"})
     purge = []
     for si, st in enumerate(stages):
         if st["kind"] in QR_KINDS and st["policy"]["type"] == "deadline" and rng.random() < 0.7:
             for _ in range(rng.randint(1, 4)):      # periodic housekeeping: DeadlineQueue.purge_expired()
                 purge.append({"tick": rng.choice(cand) + rng.choice([0, 1, 2, 3, 5]), "stage": si})
     return {"seed": seed, "kind": "pipeline", "serial": serial, "offgrid": offgrid, "stages": stages,
-            "flow_weights": {f: rng.randint(1, 3) for f in FLOWS}, "arrivals": arrivals, "ctl": ctl, "purge": purge}
+            "flow_weights": {f: rng.randint(1, 3) for f in FLOWS}, "arrivals": arrivals, "ctl": ctl, "purge": purge,
+            "outside": outside}
 
 
 def gen_policy(rng, tier, seed):
@@ -431,6 +446,9 @@ def _validate(sc):
               and _isint(c.get("limit", 1), 0), "ctl")
         s = st[c.get("stage", 0)]
         _need(s["kind"] == "server" and s["conc"]["model"] == "dynamic", "ctl target")
+    for o in sc.get("outside", []):
+        _need(isinstance(o, dict) and _isint(o.get("at", 0), 0) and _isint(o.get("stage", 0), 0, len(st) - 1)
+              and o.get("op", "changed") in ("limit", "changed") and _isint(o.get("limit", 1), 0), "outside")
     for c in sc.get("purge", []):
         _need(isinstance(c, dict) and _isint(c.get("tick", 0), 0) and _isint(c.get("stage", 0), 0, len(st) - 1), "purge")
     fw = sc.get("flow_weights", {})
@@ -506,9 +524,45 @@ def run_pipeline(sc):
     sim = Simulation(entities=pipe.entities(), end_time=Instant(horizon))
     for e in pipe.initial_events():
         sim.schedule(e)
-    mon = Monitor(sim, cap=30_000, spin_cap=4_000, invariant=pipe.on_event)
+    # capacity changes made from OUTSIDE the running loop: before run() ("at" 0) and while the run is paused
+    # after delivery number "at" (sim.control.pause() from the event hook, resume() afterwards)
+    outside = sorted(sc.get("outside", []), key=lambda o: o.get("at", 0))
+    pause_at = {o.get("at", 0) for o in outside if o.get("at", 0) > 0}
+
+    def on_event(ev, mon_):
+        pipe.on_event(ev, mon_)
+        if mon_.seq in pause_at:
+            sim.control.pause()
+
+    mon = Monitor(sim, cap=30_000, spin_cap=4_000, invariant=on_event)
     sim.control.on_time_advance(pipe.on_time_advance)
-    status, payload = run_sim(sim)
+
+    def apply_outside(at):
+        for o in outside:
+            if o.get("at", 0) == at:
+                pipe.outside_capacity_change(o.get("stage", 0), o.get("op", "changed"), o.get("limit", 1),
+                                             "before-run" if at == 0 else "paused")
+
+    def guarded(fn):
+        try:
+            return "ok", fn()
+        except Violation as v:
+            return "violation", v
+        except BudgetExceeded as b:
+            return "budget", b
+        except Exception as exc:  # noqa: BLE001
+            sig_ = repo_exception_sig(exc)
+            if sig_ is None:
+                raise
+            return "exception", Violation(sig_, repr(exc))
+
+    status, payload = guarded(lambda: apply_outside(0))
+    if status == "ok":
+        status, payload = run_sim(sim)
+    while status == "ok" and sim.control.is_paused:
+        status, payload = guarded(lambda: apply_outside(mon.seq))
+        if status == "ok":
+            status, payload = guarded(sim.control.resume)
     cut = False
     if status == "ok":
         if sim._event_heap.has_events() and any(not e.cancelled for e in sim._event_heap._heap):
